@@ -25,7 +25,19 @@ func genC02(g *Gen, tier string, w *bufio.Writer) {
 		n = 8000
 	}
 	for i := 0; i < n; i++ {
-		fmt.Fprintln(w, genJoinOp(g, tier == "thorough"))
+		line := genJoinOp(g, tier == "thorough")
+		fmt.Fprintln(w, line)
+		// the same query through the real planner in-process: the NoRetractions flag of every join node (c02_flags.go)
+		if i%2 == 0 {
+			fmt.Fprintln(w, "jf"+strings.TrimPrefix(line, "jn"))
+		}
+	}
+	late := 6
+	if tier == "thorough" {
+		late = 40
+	}
+	for i := 0; i < late; i++ {
+		fmt.Fprintln(w, genLateMatchOp(g, i))
 	}
 }
 
@@ -80,16 +92,15 @@ func sortRowsLine(s string) string {
 	return strings.Join(parts, " | ")
 }
 
-func driveJoin(toks []string) string {
-	// jn <mode> <opt> <fmt> <kinds> DB <n> (T <ncols> <nrows> v…)×n Q … SQL <hex>
-	mode, opt, fileFmt, kinds := toks[1], toks[2] == "1", toks[3], toks[4]
+// writeJoinTables writes the tables of a `jn` / `jf` line into dir and returns the SQL text of the line.
+func writeJoinTables(toks []string, dir string) string {
+	// j? <mode> <opt> <fmt> <kinds> DB <n> (T <ncols> <nrows> v…)×n Q … SQL <hex>
+	fileFmt := toks[3]
 	if toks[5] != "DB" {
 		panic("jn: expected DB")
 	}
 	ntab, _ := strconv.Atoi(toks[6])
 	rest := toks[7:]
-	dir := scratchDir("jn")
-	defer os.RemoveAll(dir)
 	for i := 0; i < ntab; i++ {
 		if rest[0] != "T" {
 			panic("jn: expected T")
@@ -113,17 +124,26 @@ func driveJoin(toks []string) string {
 			writeCSV(filepath.Join(dir, joinAliases[i]+".csv"), names, rows)
 		}
 	}
-	sql := ""
 	for i := len(toks) - 2; i >= 0; i-- {
 		if toks[i] == "SQL" {
 			b, err := hex.DecodeString(toks[i+1])
 			if err != nil {
 				panic(err)
 			}
-			sql = string(b)
-			break
+			return string(b)
 		}
 	}
+	return ""
+}
+
+func driveJoin(toks []string) string {
+	if toks[0] == "jf" {
+		return driveJoinFlags(toks)
+	}
+	mode, opt, kinds := toks[1], toks[2] == "1", toks[4]
+	dir := scratchDir("jn")
+	defer os.RemoveAll(dir)
+	sql := writeJoinTables(toks, dir)
 	args := []string{sql, "-o", mode}
 	if !opt {
 		args = append(args, "--optimize=false")
